@@ -324,17 +324,75 @@ def check(case, acc, tmp):
     os.unlink(gz)
 
 
+# ----------------------------------------------------------------------------- histories
+def history_roundtrip(t, m, report):
+    """"whatever operation history produced the table": in every state the history explorer reaches, both
+    writer forms must be the same well-formed document and read back to the table's content"""
+    from biom import Table
+    if 0 in t.shape:
+        return
+    dense = np.asarray(t.matrix_data.toarray(), float)
+    if not np.isfinite(dense).all():
+        return
+    oids, sids, bits = O.ids(t, 'observation'), O.ids(t, 'sample'), O.dense_bits(t)
+    emd = {ax: src_md(t, ax) for ax in ('observation', 'sample')}
+    ttype = t.type
+    try:
+        s1 = t.to_json('verif', creation_date=DATE)
+        buf = io.StringIO()
+        t.to_json('verif', direct_io=buf, creation_date=DATE)
+    except Exception as e:
+        report('history:writer-raised:' + type(e).__name__, 'to_json raised %s: %s' % (type(e).__name__, e))
+        return
+    try:
+        d1, d2 = json.loads(s1), json.loads(buf.getvalue())
+    except Exception as e:
+        report('history:malformed-json', 'json.loads rejects the text: %s' % e)
+        return
+    if d1 != d2:
+        report('history:direct-vs-string', 'the two writer forms are different documents')
+        return
+    try:
+        r = Table.from_json(d1)
+    except Exception as e:
+        report('history:reader-raised:' + type(e).__name__, 'from_json raised %s: %s' % (type(e).__name__, e))
+        return
+    if O.ids(r, 'observation') != oids or O.ids(r, 'sample') != sids:
+        report('history:read-ids', 'ids %r / %r, expected %r / %r' % (O.ids(r, 'observation'), O.ids(r, 'sample'), oids, sids))
+    elif O.dense_bits(r) != bits:
+        report('history:read-values', 'matrix %r, expected %r' % (r.matrix_data.toarray().tolist(), dense.tolist()))
+    elif not (md_equal(src_md(r, 'observation'), emd['observation']) and md_equal(src_md(r, 'sample'), emd['sample'])):
+        report('history:read-metadata', 'metadata %r / %r, expected %r / %r'
+               % (src_md(r, 'observation'), src_md(r, 'sample'), emd['observation'], emd['sample']))
+    elif r.type != ttype:
+        report('history:read-type', 'type %r, expected %r' % (r.type, ttype))
+    else:
+        report.count('clause:history-roundtrip')
+
+
+def history_spec(depth):
+    from .. import explorer as E
+    from .. import ops as OPS
+    return E.Spec(OPS.start_tables(), OPS.all_ops(), depth, check_ops=(), on_state=history_roundtrip,
+                  label='histories-d%d' % depth)
+
+
 def run(run):
+    from .. import explorer as E
     cs = cases(run.tier, run.seed)
     P.run_cases(run, cs, check)
+    E.explore(run, history_spec(2 if run.quick else 3))
     run.extra['products'] = {k[5:]: v for k, v in run.acc.counters.items() if k.startswith('prod:')}
     run.extra['bound'] = {'shapes': D.shapes(run.tier), 'layouts': D.LAYOUTS, 'readers': READERS,
                           'metadata_values': len(md_values(run.tier))}
-    vacuity(run, ['clause:wellformed', 'clause:same-document', 'clause:independent-decode'] +
+    vacuity(run, ['clause:history-roundtrip', 'clause:wellformed', 'clause:same-document', 'clause:independent-decode'] +
             ['reader:' + r for r in READERS] + ['prod:A', 'prod:B-ids', 'prod:B-md', 'prod:C'])
     run.assumptions += ['stdlib json/gzip are the independent decoder',
                         'creation_date is passed explicitly (the writer otherwise calls datetime.now())']
 
 
 def replay(case):
+    if 'history' in case:
+        from .. import explorer as E
+        return E.replay_history(history_spec(len(case['history'])), case)
     return P.replay_case(check, case)
